@@ -78,6 +78,7 @@ type c08Case struct {
 	Args      []valJ    `json:"args"`
 	Want      []int     `json:"want"`
 	Hdrs      []hdrJ    `json:"hdrs"`
+	Rhdrs     []hdrJ    `json:"rhdrs"` // response headers, set by a service-side invoke plugin
 	Res       resJ      `json:"res"`
 	Rtypes    []int     `json:"rtypes"`
 	RtDef     bool      `json:"rt_default"`
@@ -134,6 +135,7 @@ var (
 type built struct {
 	types  []reflect.Type
 	args   []reflect.Value
+	rhdrs  []reflect.Value
 	hdrs   []reflect.Value
 	res    []reflect.Value
 	rtypes []reflect.Type
@@ -181,6 +183,13 @@ func build(c *c08Case) (*built, error) {
 			return nil, fmt.Errorf("hdr: %v", err)
 		}
 		b.hdrs = append(b.hdrs, v)
+	}
+	for _, h := range c.Rhdrs {
+		v, err := mk(h.V)
+		if err != nil {
+			return nil, fmt.Errorf("rhdr: %v", err)
+		}
+		b.rhdrs = append(b.rhdrs, v)
 	}
 	tix := func(i int) (reflect.Type, error) {
 		if i < 0 {
@@ -584,6 +593,17 @@ func runCase(line []byte, out *json.Encoder) error {
 		if i == 0 {
 			target, targetM = f, &c.Methods[0]
 		}
+	}
+
+	if len(c.Rhdrs) > 0 {
+		// response headers set while the call is handled (as a plugin or the function itself would)
+		service.Use(core.InvokeHandler(func(ctx context.Context, name string, args []interface{}, next core.NextInvokeHandler) ([]interface{}, error) {
+			sc := core.GetServiceContext(ctx)
+			for i, h := range c.Rhdrs {
+				sc.ResponseHeaders().Set(unhexs(h.K), ifaceOf(b.rhdrs[i]))
+			}
+			return next(ctx, name, args)
+		}))
 	}
 
 	// ---- the local call: the same function value, called directly with the same arguments
